@@ -9,8 +9,12 @@
    operations (requests [OReq q], [OClear] = clear_cache(), [OObserve] = the
    read-only calls); [trace H K cf ops] is the list of its (request, reply)
    pairs, [cf] being the configuration and [K] = md5(.)[:16] the cache key;
-   [sys_trace H K cf0 cf1 tops] is every step of two loop objects driven by one
-   interleaved list, [proj b] the part that concerns object [b].
+   [OReset] = reset_circuit_breaker().  With a circuit breaker configured by [bc]
+   (enabled?, failure threshold, recovery timeout) the steps of a history are
+   [betrace H K cf bc ops], each marked with whether the breaker admitted it;
+   [admitted H K cf bc ops] are the operations it admitted.
+   [sys_trace H K cf0 cf1 bc0 bc1 tops] is every step of two loop objects driven
+   by one interleaved list, [proj b] the part that concerns object [b].
    [spec_pass] (Proofs.v) is the table of the property text, transcribed
    independently of the code. *)
 From Coq Require Import ZArith List Bool.
@@ -199,15 +203,68 @@ Theorem c07_observe_is_noop :
 Proof. exact observe_noop_proof. Qed.
 Print Assumptions c07_observe_is_noop.
 
-(* Two loop objects (any two configurations) driven by one interleaved list of
-   operations do not influence each other: what object [b] replies is what it
-   replies to its own operations alone - so every theorem above holds of each
-   object of a system, and no reply of one object goes back to a request made
-   to the other. *)
+(* reset_circuit_breaker() changes no reply of a loop whose breaker admits. *)
+Theorem c07_reset_is_noop :
+  forall (H K : str -> str) cf ops1 ops2,
+    trace H K cf (ops1 ++ OReset :: ops2) = trace H K cf (ops1 ++ ops2).
+Proof. exact reset_noop_proof. Qed.
+Print Assumptions c07_reset_is_noop.
+
+(* The circuit breaker (any threshold, any recovery time, any history incl.
+   resets) only ever REJECTS: the admitted steps of a history are, step for
+   step, the history of the admitted operations against the loop without a
+   breaker - so every theorem above holds of them, with [admitted ... ops] (a
+   sub-list of [ops]) as the history - and every other step is a request that
+   came back with the blocked CIRCUIT_OPEN result: no token, not marked cached,
+   no agent asked, cache untouched. *)
+Theorem c07_breaker_only_rejects :
+  forall (H K : str -> str) cf bc ops,
+    reqs_of (admitted_evs (betrace H K cf bc ops)) = trace H K cf (admitted H K cf bc ops) /\
+    (forall e, In e (betrace H K cf bc ops) -> snd e = false ->
+       exists q n, e = ((OReq q, Some (mkReply (mkCore false ACircuitOpen true None) false false false None n), n), false)) /\
+    (forall o, In o (admitted H K cf bc ops) -> In o ops).
+Proof. exact breaker_only_rejects_proof. Qed.
+Print Assumptions c07_breaker_only_rejects.
+
+(* Whole-history form of the first conjunct for a loop WITH a breaker: a reply
+   that is not blocked, or carries a token, or is marked cached, was admitted,
+   is the reply of the breaker-less loop to the same request in the admitted
+   history, and if it is not blocked it goes back to a request at which the
+   agents' verdicts satisfied the configured logic. *)
+Theorem c07_breaker_pass_only_if :
+  forall (H K : str -> str) cf bc ops q r n adm,
+    In ((OReq q, Some r, n), adm) (betrace H K cf bc ops) ->
+    c_blocked (r_core r) = false \/ c_token (r_core r) <> None \/ r_cached r = true ->
+    adm = true /\
+    exists i, nth_error (trace H K cf (admitted H K cf bc ops)) i = Some (q, r) /\
+      (c_blocked (r_core r) = false ->
+       exists j qj rj,
+         (j <= i)%nat /\ nth_error (trace H K cf (admitted H K cf bc ops)) j = Some (qj, rj) /\
+         K (q_prompt qj) = K (q_prompt q) /\ r_cached rj = false /\
+         (r_cached r = false -> j = i) /\
+         spec_pass (cf_logic cf) (q_exec qj) (q_assess qj) = true).
+Proof. exact breaker_pass_only_if_proof. Qed.
+Print Assumptions c07_breaker_pass_only_if.
+
+(* With enable_circuit_breaker=False every step is admitted and the history is
+   that of the loop proper (whatever the breaker's counters do meanwhile). *)
+Theorem c07_breaker_disabled :
+  forall (H K : str -> str) cf bc, bc_enabled bc = false ->
+    forall ops,
+      reqs_of (map fst (betrace H K cf bc ops)) = trace H K cf ops /\
+      forallb snd (betrace H K cf bc ops) = true.
+Proof. exact breaker_disabled_proof. Qed.
+Print Assumptions c07_breaker_disabled.
+
+(* Two loop objects (any two configurations, with or without breakers) driven
+   by one interleaved list of operations do not influence each other: the steps
+   of object [b] are those of its own operations alone - so every theorem above
+   holds of each object of a system, and no reply of one object goes back to a
+   request made to the other. *)
 Theorem c07_loops_isolated :
-  forall (H K : str -> str) cf0 cf1 tops b,
-    reqs_of (proj b (sys_trace H K cf0 cf1 tops)) =
-    trace H K (if b then cf1 else cf0) (proj b tops).
+  forall (H K : str -> str) cf0 cf1 bc0 bc1 tops b,
+    proj b (sys_trace H K cf0 cf1 bc0 bc1 tops) =
+    betrace H K (if b then cf1 else cf0) (if b then bc1 else bc0) (proj b tops).
 Proof. exact loops_isolated_proof. Qed.
 Print Assumptions c07_loops_isolated.
 
